@@ -1,22 +1,43 @@
 #!/usr/bin/env python3
-"""Maintenance tool (run by hand, output reviewed and committed; never run by a check):
-   tools/mkfinding.py <dump.jsonl> <finding-id> <signature-regex> <input-regex>
-writes findings/<finding-id>.digests with the digests of all dumped failures matching both regexes and prints a summary."""
+"""Maintenance tool (run by hand, output reviewed and committed; never run by a check).
+   tools/mkfinding.py <dump.jsonl> <finding-id> [...]
+For each listed open finding of known_findings.jsonl, (re)writes findings/<id>.digests with the digests of all dumped failures
+(VERIF_DUMP=<file> ./check Cxx --tier thorough) that match the finding's signature and input pattern, and prints what was left unmatched."""
 import sys, json, re, os
-dump, fid, sigre, inre = sys.argv[1:5]
-sigre, inre = re.compile(sigre), re.compile(inre, re.S)
-ds = set(); sigs = {}
-rest = 0
-for line in open(dump):
-    r = json.loads(line)
-    s = r['input'] if isinstance(r['input'], str) else json.dumps(r['input'], ensure_ascii=False, sort_keys=True)
-    if sigre.fullmatch(r['signature']) and inre.search(s):
-        ds.add(r['digest']); sigs[r['signature']] = sigs.get(r['signature'], 0) + 1
-    else:
-        rest += 1
 root = os.path.dirname(os.path.dirname(os.path.abspath(__file__)))
-path = os.path.join(root, 'findings', fid + '.digests')
-old = set(open(path).read().split()) if os.path.exists(path) else set()
-with open(path, 'w') as fh:
-    fh.write('\n'.join(sorted(ds | old)) + '\n')
-print('%s: %d digests (+%d kept from before), signatures: %s; %d dumped failures not matched' % (fid, len(ds), len(old - ds), sigs, rest))
+dump, ids = sys.argv[1], sys.argv[2:]
+recs = {}
+for line in open(os.path.join(root, 'known_findings.jsonl')):
+    line = line.strip()
+    if line.startswith('{'):
+        r = json.loads(line)
+        recs[r['id']] = r
+rows = [json.loads(l) for l in open(dump)]
+matched = set()
+for fid in ids:
+    r = recs[fid]
+    sig = re.compile(r['signature']) if r.get('signature_is_regex') else None
+    pat = re.compile(r['input_pattern'], re.S) if r.get('input_pattern') else None
+    ds = set()
+    n = 0
+    for i, row in enumerate(rows):
+        if row['property'] != r['property']:
+            continue
+        if sig is not None:
+            if not sig.fullmatch(row['signature']):
+                continue
+        elif r['signature'] != row['signature']:
+            continue
+        s = row['input'] if isinstance(row['input'], str) else json.dumps(row['input'], ensure_ascii=False, sort_keys=True)
+        if pat is not None and not pat.search(s):
+            continue
+        ds.add(row['digest'])
+        matched.add(i)
+        n += 1
+    with open(os.path.join(root, 'findings', fid + '.digests'), 'w') as fh:
+        fh.write('\n'.join(sorted(ds)) + '\n')
+    print('%s: %d cases, %d digests' % (fid, n, len(ds)))
+left = [rows[i] for i in range(len(rows)) if i not in matched]
+print('%d dumped failures matched no listed finding' % len(left))
+for row in left[:10]:
+    print('   ', row['signature'], '|', json.dumps(row['input'], ensure_ascii=False)[:120])
